@@ -518,6 +518,21 @@ func (c *Ctx) c18LiteralTypes() {
 	}
 }
 
+// c18BuiltinNamed: a top-level function or variable spelled like a builtin, defined and then used: the use means the
+// program's name in one call as in successive calls (the choice is made from what is DECLARED when the use is
+// compiled, not from what has run)
+func (c *Ctx) c18BuiltinNamed() {
+	for _, stmts := range [][]string{
+		{"xs := []int{1, 2, 3}", "func len(s []int) int { return 42 }", "n := len(xs)", "println(\"n =\", n)", "n + 1"},
+		{"func println(s string) string { return \"p:\" + s }", "func use() string { return println(\"q\") }", "r := use()", "r"},
+		{"func copy(a int, b int) int { return a*10 + b }", "v := copy(1, 2)", "func delete(k int) int { return k * 100 }", "func later() int { return copy(3, 4) + delete(5) }", "w := later()", "v + w"},
+		{"append := 7", "x := append + 1", "x"},
+	} {
+		c.Rep.Count("builtin-named-top-level")
+		c.c18Fixed("whole-vs-cut-builtin-named", fstest.MapFS{}, stmts, nil)
+	}
+}
+
 // c18Packages: imports of script packages at any cut. The packages here have no visible initialisation (functions,
 // constants and variables nobody changes): evaluating them again is invisible - see c18OpenFindings for the others
 func (c *Ctx) c18Packages() {
@@ -579,6 +594,7 @@ func runC18(c *Ctx) error {
 	c.c18OpenFindings()
 	c.c18LiteralTypes()
 	c.c18Packages()
+	c.c18BuiltinNamed()
 	c.Rep.Rule = "eval: programs of 3..16 top-level statements of the model's kinds (:= / var definitions, = and += assignments, println, expression statements, functions incl. re-definition with late-bound globals, top-level for loops and ifs; 3% with a use before definition) evaluated whole, one statement per Eval and in a random cutting (chunks of 1..4), each compared with the model on the same cutting; whole-vs-cut: progen top-level programs (type, method and function declarations, helpers, variables of int/bool/string/slice/map/struct types, if/for/switch/range, multi-value calls, closures-free calls, expression statements, optional import) evaluated whole and in three cuttings; distinct = distinct program; non-trivial = more than 5 / 10 statements"
 	nt, nr := 500, 300
 	if c.Thorough() {
